@@ -495,6 +495,8 @@ def r_sense(ctx):
         for ev in trace:
             if isinstance(ev, ast.Assign) and any(dotted(t) == name for t in ev.targets):
                 val = ev.value
+            elif isinstance(ev, ast.AugAssign) and dotted(ev.target) == name:
+                val = ast.BinOp(left=val if val is not None else ev.target, op=ev.op, right=ev.value)
         return val
 
     accepted = set()
@@ -529,7 +531,8 @@ def r_sense(ctx):
                     good = isinstance(c.ops[0], flipped) and is_const(r2, 0) and isinstance(l2, ast.Call) and call_name(l2) == TRANSLATE \
                         and l2.args and dotted(l2.args[0]) == cons + ".expression"
                 if not good:
-                    ok, what = False, "becomes `%s`" % src(c)
+                    ok, what = False, "becomes `%s`%s" % (src(c), " with `%s = %s` (not the translation of the expression as written)" % (src(c.left), src(left))
+                                                          if isinstance(c.left, ast.Name) and left is not None else "")
                     break
         ctx.ob("R-SENSE", "CvxpyWrapper.send_constraint_to_solver::%s" % lit, ok,
                "'%s' becomes `translation(expression) %s 0`" % (lit, "<=" if want is ast.LtE else "==") if ok else "'%s' %s" % (lit, what), loc(fn, fn))
